@@ -163,6 +163,8 @@ static int op_mpn_pow_1(int argc, tok_t *a, out_t *o) {
 
 const opdef_t ops_powm[] = {
   {"mpz_powm", op_mpz_powm}, {"mpz_powm_ui", op_mpz_powm_ui},
+  /* the same call answered by the model together with its memory-level flags (Mpir/Model/PowmUiMem.lean) */
+  {"mpz_powm_ui_m", op_mpz_powm_ui}, {"mpz_powm_m", op_mpz_powm},
   {"mpz_pow_ui", op_mpz_pow_ui}, {"mpz_ui_pow_ui", op_mpz_ui_pow_ui},
   {"mpn_powm", op_mpn_powm}, {"mpn_powlo", op_mpn_powlo},
   {"mpn_redc_1", op_mpn_redc_1}, {"mpn_redc_2", op_mpn_redc_2}, {"mpn_redc_n", op_mpn_redc_n},
